@@ -33,6 +33,8 @@ THEOREMS = [
     "C11_reader_refines_spec",
     "C11_reader_inputs",
     "C11_reader_layout",
+    "C11_after_terminator",
+    "C11_after_terminator_readData",
     "C11_spec_layout",
     "C11_reader_render",
     "C11_reader_layout_render",
@@ -52,8 +54,8 @@ def gen_file_layout(rng, prob, limit, canonical=False):
         style = {"eq": rng.choice([0, 1, 2, 3]), "glue": rng.choice([0.0, 0.5, 1.0]), "case": rng.choice([0, 1, 2, 3])}
         feats = {f for f in ALL_FEATS if rng.random() < 0.6}
         phys = {f: True for f in PHYS if rng.random() < 0.3}
-        if rng.random() < 0.03 and phys.get("final_blank"):
-            phys["junk"] = True
+        if rng.random() < 0.25 and phys.get("final_blank"):
+            phys["junk"] = True  # text behind the terminator of the data block (repaired finding C11-F1)
     srng = rng.__class__(rng.getrandbits(48))
     blocks = []
     for k in ("cells", "surfaces", "data"):
@@ -289,6 +291,13 @@ EDGE_TEXTS = {
     "exactly 127 columns": "T\n" + "1 0 " + "1" * 123 + "\n2 0 1\n",
     "& in column 128": "T\n" + "1 0 " + " " * 122 + " &" + "\n2 0 1\n",
     "vertical format": "T\n1 0 -1\n# 1 2\n3 0 1\n",
+    "vertical format, indented": "T\n1 0 -1\n   # 1 2\n3 0 1\n",
+    "# in column 5 of a cell": "T\n2 0 #1\n1 0 -1\n",
+    "# in column 3 behind a word": "T\n1 0 -1 &\n1 #2\n",
+    "# in column 6": "T\n1 0 -1\n     #2\n",
+    "text behind the terminator": "T\n1 0 -1\n\n1 so 5\n\nmode n\n\nnps 7\n# x\nread file=a.i\n",
+    "two blank lines end the deck early": "T\n1 0 -1\n\n\n\n1 so 5\n",
+    "sub-file of the data block with a blank line": "T\n1 0 -1\n\n1 so 5\n\nread file=b.i\nnps 3\n",
     "# in a comment line": "T\nc # x\n1 0 -1\n",
     "CR only": "T\r1 0 -1\r\r1 so 5\r",
     "tabs in columns 1-8": "T\n1 0\t-1\n\timp:n=1\n    \tvol=1\n2 0 1\n",
@@ -311,7 +320,7 @@ EDGE_TEXTS = {
 
 
 def unit_edges(chk, drv):
-    cases = [{"main": "m.i", "files": {"m.i": t, "a.i": "5 0 1\n"}, "cwd": ".", "abs": False, "limit": lim}
+    cases = [{"main": "m.i", "files": {"m.i": t, "a.i": "5 0 1\n", "b.i": "ctme 5\n\nprint\nread file=a.i\n"}, "cwd": ".", "abs": False, "limit": lim}
              for t in EDGE_TEXTS.values() for lim in (128, 80)]
     names = [n + "/%d" % lim for n in EDGE_TEXTS for lim in (128, 80)]
     model = drv.batch([rl.model_case(c) for c in cases])
@@ -460,7 +469,7 @@ def run(chk):
             if rendered[idx] != py:
                 chk.broken_obligation("correspondence", "Spec.renderInputs vs harness renderer", {"lean": rendered[idx], "py": py}, {"layout": lay})
         # the Spec reader inverts the layout (a sample of what C11_spec_layout proves) — on the very bytes MontePy reads
-        if spec is not None and not lay["phys"].get("junk"):
+        if spec is not None:
             got = [[i["block"], i["words"]] for i in spec[idx]["inputs"]]
             if got != expected_inputs(lay):
                 chk.broken_obligation("correspondence", "Spec.logicalInputs on a rendered file vs the words rendered", {"spec": got, "words": expected_inputs(lay)}, {"text": o["text"], "layout": lay})
